@@ -230,7 +230,11 @@ def c06wr (a : List String) (obs : String) : String × String :=
       let out := wrRun w0 e toks [s!"ok:{w0.size}@"]
       let model := ";".intercalate out ++ " masks=" ++ mstr
       let st : OSt := { client, op := natOr op, ext := parseExt ext, masks, size := some (natOr ((((items.headD "").splitOn "@").headD "").drop 3).toString) }
-      let verdict := if (items.headD "").startsWith "PANIC" then "bad:constructor-panicked" else oRun st toks (items.drop 1) 0
+      -- NewWriterSize(n): "output frames payload length could be up to n" — the payload buffer is n bytes
+      let sizeAsked : Option Nat := match ctor.splitOn ":" with | ["size", n] => (if natOr n > 0 then some (natOr n) else none) | _ => none
+      let verdict := if (items.headD "").startsWith "PANIC" then "bad:constructor-panicked"
+        else if sizeAsked.isSome && st.size != sizeAsked then "bad:NewWriterSize-buffer-is-not-the-size-asked-for"
+        else oRun st toks (items.drop 1) 0
       (model, verdict)
   | _ => ("BADOP", "skip")
 
